@@ -134,7 +134,7 @@ def template_cases(tp, ti, phase, n, full=False):
             must = label.startswith('bad-') and can_demand
             emit(label, val, k, t.kind, G._sub(base, t.start, t.end, val), must=must)
         if t.kind == 'name' and phase != 'act' and k == 0 and not full:
-            names = ['no-such-instruction']
+            names = ['no-such-instruction', 'no-such-{0}-{x}', '%s']
             if tp.minimal:
                 names += [t.text + 'x', t.text.upper() if t.text.upper() != t.text else 'Xx']
             for nm in names:
